@@ -13,8 +13,17 @@ _built = {}
 
 
 def build(profile="release"):
+    global RDIR
     if _built.get(profile):
         return
+    if REPO != "/repo" and not _built.get("copied"):
+        dst = os.path.join(BUILD, "replay-src")
+        shutil.rmtree(dst, ignore_errors=True)
+        shutil.copytree(RDIR, dst, ignore=shutil.ignore_patterns("target"))
+        ct = open(os.path.join(dst, "Cargo.toml")).read().replace('"/repo/', '"%s/' % REPO)
+        open(os.path.join(dst, "Cargo.toml"), "w").write(ct)
+        RDIR = dst
+        _built["copied"] = True
     shutil.copyfile(os.path.join(REPO, "Cargo.lock"), os.path.join(RDIR, "Cargo.lock"))
     cmd = ["cargo", "build", "--offline", "--target-dir", TDIR]
     if profile == "release":
